@@ -64,7 +64,8 @@ def config(ctx):
                  ("x3", [1, 2, 3], dict(max_serial=2, workers=16))],
         long_gen=dict(jvms=8, num=8, depth=5000, ids=16), long_gen_nt=dict(jvms=2, num=8, depth=5000),
         very_long=dict(jvms=4, depth=40000, ids=24),
-        rt=dict(seconds=2, from_plan=300, long_num=100, long_depth=110, long_ids=12, also_seconds=1),
+        rt=dict(seconds=2, from_plan=220, long_num=80, long_depth=110, long_ids=12, also_seconds=1, concurrent=False,
+                threads=100),
         per_proc=40, nproc=12)
 
 
@@ -73,10 +74,40 @@ def _rt_part(ctx, cfg, plan_beh, svcs, box):
     try:
         rc = cfg["rt"]
         rng = ctx.rng.__class__(ctx.seed + 77)
-        sel = [b for b in plan_beh if any(s["e"]["e"] == "TO" for s in b) or sum(1 for s in b if s["e"]["e"] == "C") > 1]
-        rng.shuffle(sel)
-        sel = sel[:rc["from_plan"]]
-        hs = [C.to_timed(b, wait_out=(i % 3 != 0), cleanup=(i % 2 == 0), late_replace=(i % 4 < 2)) for i, b in enumerate(sel)]
+        # three classes of single-client behaviours (by the model's own account of them):
+        #   R  a live request with a pending timer is replaced by a re-announcement (its timer must die with it)
+        #   F  a timer fires while its request is pending
+        #   O  the rest: requests finished by verdict / D / T before their deadline
+        def replaced(b):
+            prev, armed = 0, False
+            for s in b:
+                k = s["e"]["e"]
+                if k == "C":
+                    if s["n"] == prev and armed:
+                        return True
+                    armed = True
+                elif k == "TO":
+                    armed = False
+                prev = s["n"]
+            return False
+        cls = {"R": [], "F": [], "O": []}
+        for b in plan_beh:
+            cls["R" if replaced(b) else "F" if any(s["e"]["e"] == "TO" for s in b) else "O"].append(b)
+        for v in cls.values():
+            rng.shuffle(v)
+        n = rc["from_plan"]
+        want = {"R": n // 2, "F": (3 * n) // 10}
+        want["O"] = n - want["R"] - want["F"]
+        hs = []
+        for c in ("R", "F", "O"):
+            for i, b in enumerate(cls[c][:want[c]]):
+                if c == "R":
+                    # two of three: the new instance stays pending (hurried) while the clock passes the old deadline
+                    keep = i % 3 != 2
+                    hs.append(C.to_timed(b, wait_out=True, cleanup=not keep, late_replace=(i % 2 == 0), probe_hurry=keep))
+                else:
+                    hs.append(C.to_timed(b, wait_out=(i % 3 != 0), cleanup=(i % 2 == 0), probe_hurry=(i % 4 == 1)))
+        box["classes"] = {c: min(len(cls[c]), want[c]) for c in cls}
         r, lb = C.long_generate(ctx, "rt", list(range(1, rc["long_ids"] + 1)), depth=rc["long_depth"], num=rc["long_num"],
                                 real_time=True, seed=ctx.seed + 5)
         hs2 = [C.long_to_timed(b, wait_out=(i % 3 != 0)) for i, b in enumerate(lb)]
@@ -84,7 +115,16 @@ def _rt_part(ctx, cfg, plan_beh, svcs, box):
         for secs in [rc["seconds"]] + ([rc["also_seconds"]] if rc.get("also_seconds") else []):
             timing = C.Timing(secs)
             t0 = time.time()
-            out = C.rt_replay(ctx, hs + hs2, svcs, timing, tag="rt%d" % secs, nthreads=160)
+            allh = hs + hs2
+            out = C.rt_replay(ctx, allh, svcs, timing, tag="rt%d" % secs, nthreads=rc.get("threads", 96))
+            if out["inconclusive"]:
+                # second chance with little concurrency for the histories whose schedule could not be kept
+                idx = out["inconclusive"]
+                out2 = C.rt_replay(ctx, [allh[i] for i in idx], svcs, timing, tag="rt%db" % secs, nthreads=12, retries=1)
+                for j, i in enumerate(idx):
+                    out["records"][i] = out2["records"][j]
+                out["late_attempts"] += out2["late_attempts"]
+                C.rt_rewrite(out)
             runs.append((timing, out, time.time() - t0))
         box["rt"] = (hs + hs2, len(hs), runs)
     except BaseException as e:      # noqa: reported by the main thread
@@ -142,7 +182,8 @@ def run(ctx):
         if rt_thread is None:
             single = [b for b in beh if len({s["e"]["id"] for s in b if "id" in s["e"]}) <= 1]
             rt_thread = threading.Thread(target=_rt_part, args=(ctx, cfg, single, svcs, box))
-            rt_thread.start()
+            if cfg["rt"].get("concurrent", True):
+                rt_thread.start()
         behaviours = [[s["e"] for s in b] for b in beh]
         tails = [R.probe_tail(b, svcs) for b in behaviours]
         for b in beh:       # what the model says these behaviours exercise (independent of the code under test)
@@ -234,6 +275,8 @@ def run(ctx):
     ctx.cov["long_histories"] = lh
 
     # ---- 5. real timers --------------------------------------------------------------------------------------------
+    if not cfg["rt"].get("concurrent", True):
+        rt_thread.start()           # thorough: hundreds of daemons on a wall-clock schedule, after the CPU-bound work
     rt_thread.join()
     if "err" in box:
         raise box["err"]
@@ -270,6 +313,7 @@ def run(ctx):
                     time.time() - t2))
     for h in hs[:2]:
         ctx.sample({"timed": C.ev_sig(h)})
+    rts["classes_of_exhaustive_behaviours"] = box.get("classes")
     ctx.cov["real_timers"] = rts
     rep.finish()
     pool.shutdown()
@@ -292,6 +336,8 @@ def run(ctx):
     for k in ("wait_records", "timer_firings", "firings_with_output", "eof"):
         if not rts[k]:
             raise MachineryError("vacuous run: no %s in the real-timer traces" % k)
+    if not (box.get("classes") or {}).get("R"):
+        raise MachineryError("vacuous run: no real-timer history replaces a request whose timer is pending")
     if rts["inconclusive"] * 4 > max(1, len(hs) * len(runs)):
         raise MachineryError("real-timer schedule could not be kept on %d of %d runs (machine too loaded)"
                              % (rts["inconclusive"], len(hs) * len(runs)))
